@@ -10,10 +10,11 @@ from common import CACHE, COQ, NCPU, env_with, log, sh
 HEADER = """From Coq Require Import List NArith ZArith Uint63.
 From HDW Require Import Lib.Outcome Run.Pack.
 Import ListNotations.
-Open Scope uint63_scope.
 Set Printing Width 100000000.
 Set Printing Depth 100000000.
 """
+# drivers may open other scopes on import: open ours last
+FOOTER = "Open Scope uint63_scope.\n"
 
 TAGS = {0: "ok", 1: "err", 2: "panic", 3: "fuel"}
 
@@ -125,6 +126,7 @@ def eval_terms(terms, shards=NCPU, timeout=600, label="cases", imports=""):
         with open(p, "w") as f:
             f.write(HEADER)
             f.write(imports)
+            f.write(FOOTER)
             for _, t in b:
                 f.write("Eval vm_compute in (%s).\n" % t)
         paths.append(p)
